@@ -193,7 +193,8 @@ pub fn specs_per_luma(full: bool) -> u64 {
     let nc = if full { 14 } else { 7 } as u64;
     // (A) dec == ss: 9 ss x nc^2 chroma-U x 7 V variants x 8 pads x 4 types
     // (B) dec != ss: 72 (dec,ss) x 2 chroma choices x 2 pads x 2 types
-    9 * nc * nc * 7 * 8 * 4 + 72 * 2 * 2 * 2
+    // (C) exactly one chroma plane's decimation differs on exactly one axis, sizes right: 9 ss x {U,V} x {x,y} x 2 pads x 2 types
+    9 * nc * nc * 7 * 8 * 4 + 72 * 2 * 2 * 2 + 9 * 2 * 2 * 2 * 2
 }
 
 /// Enumerate the family for one luma size; `f(local_index, spec)`.
@@ -234,6 +235,24 @@ pub fn for_luma(w: usize, h: usize, full: bool, mut f: impl FnMut(u64, FrameSpec
                                 f(i, FrameSpec { w, h, cu: c, cv: c, du: (dx, dy), dv: (dx, dy), ss: (ssx, ssy), pad, u8s, depth });
                                 i += 1;
                             }
+                        }
+                    }
+                }
+            }
+        }
+    }
+    for ssx in 0..3u8 {
+        for ssy in 0..3u8 {
+            let good = (ssx as usize, ssy as usize);
+            let c = (w >> ssx, h >> ssy);
+            for plane_u in [true, false] {
+                for axis_x in [true, false] {
+                    let bad = if axis_x { ((good.0 + 1) % 3, good.1) } else { (good.0, (good.1 + 1) % 3) };
+                    let (du, dv) = if plane_u { (bad, good) } else { (good, bad) };
+                    for pad in [PADS[0], PADS[3]] {
+                        for (u8s, depth) in [TYPES[0], TYPES[2]] {
+                            f(i, FrameSpec { w, h, cu: c, cv: c, du, dv, ss: (ssx, ssy), pad, u8s, depth });
+                            i += 1;
                         }
                     }
                 }
